@@ -465,6 +465,44 @@ func oracleC13(rep *report, r *rng) {
 			}
 		}
 	}
+	// a field inside a frame: other bytes before and after it in one buffer, and between the write and the read the
+	// library's read-only services run over windows of that buffer (as the frame encoders do): the field must read
+	// back as written
+	for k := 0; k < 400 && !rep.failed(); k++ {
+		n := []int{1, 3, 8, 10, 16, 32}[r.intn(6)]
+		pad := []int{32, 48, 0}[r.intn(3)]
+		left := r.chance(1, 2)
+		p := primSpec{Kind: "fixed", N: n, Pad: pad, Left: left}
+		pre := r.bytes(16 + r.intn(64))
+		s := []byte(r.textWithPad(r.intn(n+2), byte(pad)))
+		post := r.bytes(r.intn(20))
+		arr := make([]byte, 0, len(pre)+n+len(post)+r.intn(40))
+		buf := bytes.NewBuffer(arr)
+		buf.Write(pre)
+		if err := wFixed(p, string(s), buf); err != nil {
+			continue
+		}
+		buf.Write(post)
+		all := buf.Bytes()
+		snapshot := append([]byte{}, all...)
+		alg := []string{"SSE_BIN", "SZSE_BIN", "CRC16", "CRC32"}[r.intn(4)]
+		lo := r.intn(8)
+		for _, hi := range []int{len(pre), len(pre) - r.intn(8), len(pre) + n, len(all)} {
+			if hi >= lo {
+				calcOn(alg, bytes.NewBuffer(all[lo:hi]))
+			}
+		}
+		rep.eval("field-in-frame", fmt.Sprintf("%d/%d/%v/%x/%d/%s", n, pad, left, s, len(pre), alg))
+		in := map[string]any{"width": n, "pad": pad, "left": left, "text_hex": hex.EncodeToString(s), "bytes_before_field": len(pre), "bytes_after_field": len(post),
+			"between_write_and_read": alg + " Calc over windows of the buffer ending before / at / after the field", "buffer_hex_after_write": hex.EncodeToString(snapshot)}
+		buf.Next(len(pre))
+		got, err := rFixed(p, buf)
+		want := specReadFixed(specWriteFixed(s, n, byte(pad), left), byte(pad), left)
+		if err != nil || got != string(want) {
+			in["buffer_hex_at_read"] = hex.EncodeToString(all)
+			rep.fail(failure{Oracle: "fixed-read", What: fmt.Sprintf("a field written into a frame read back as %x want %x (err %v)", got, want, err), Input: in})
+		}
+	}
 	rep.sample("write n=6 pad='0' left text=abc -> " + hex.EncodeToString(specWriteFixed([]byte("abc"), 6, '0', true)))
 	rep.sample("read field=61c3a9e9e9e9 pad=0xe9 right -> " + hex.EncodeToString(specReadFixed([]byte{0x61, 0xc3, 0xa9, 0xe9, 0xe9, 0xe9}, 0xe9, false)))
 }
